@@ -733,3 +733,51 @@ def conversions(ck, rule):
               and isinstance(n.value.args[0].func, ast.Attribute) and n.value.args[0].func.attr in ("get_val", "astype", "raw") or
               isinstance(n, ast.Return) and isinstance(n.value, ast.Call) and dotted(n.value.func) == "bool" and n.value.args and dotted(n.value.args[0]) == "self.val" for n in ast.walk(m.node))
     ck.check(okb, rule, m, "bool() is true iff the value (code) is non-zero", "__bool__ does not test the value", m.node)
+
+
+def value_type_fixup(ck, rule):
+    """C16.R3: after a non-raw store into a format with fraction bits the object's value type is float (get_val of an int-typed object floors):
+    on every path of set_val that keeps an integer value type, the guards establish n_frac <= 0 or a raw store."""
+    prog = ck.prog
+    f = A.funnel(prog)
+    from ..common import path_literals, order_facts
+    from ..terms import nonneg, Facts
+    n_ok = 0
+    for pf in fpaths(prog, f):
+        if pf.end == "raise":
+            continue
+        raw = truth_on_path(ast.Name(id="raw", ctx=ast.Load()), [(g[2] if g[2] is not None else g[0], g[1]) for g in pf.guards if g[2] is not None and "raw" in src(g[2]) and "format" not in src(g[2])])
+        vst = [st for st in pf.stores if st.path == "self.vdtype"]
+        if not vst:
+            continue
+        final = vst[-1].value
+        if dotted(final) in ("float", "complex"):
+            n_ok += 1
+            continue
+        if dotted(final) == "vdtype":
+            continue      # raw store: the caller-supplied value type is kept as is (raw codes, no value semantics involved)
+        # the value type stays whatever the normaliser reported (may be an integer type): then n_frac must be known <= 0
+        lits = path_literals(pf.guards)
+        int_known = None
+        for t, pol in lits:
+            if isinstance(t, ast.Call) and dotted(t.func) == "np.issubdtype" and len(t.args) == 2 and dotted(t.args[1]) in ("np.integer", "int"):
+                int_known = pol if int_known is None else int_known
+        if int_known is False:
+            n_ok += 1
+            continue      # not an integer type on this path
+        nf = Term.var("self.n_frac")
+        ge = order_facts(pf.guards, rename=lambda d: d)
+        okle = nonneg(-nf, Facts(ge=ge))
+        if not okle:
+            # the conjunction `integer type and n_frac > 0` was false: case split
+            okle = any(isinstance(t, ast.BoolOp) and isinstance(t.op, ast.And) and not pol and
+                       any(isinstance(v, ast.Compare) and dotted(v.left) == "self.n_frac" and isinstance(v.ops[0], ast.Gt) and isinstance(v.comparators[0], ast.Constant) and v.comparators[0].value == 0 for v in t.values) or
+                       any(isinstance(v, ast.Compare) and dotted(v.left) == "self.n_frac" and isinstance(v.ops[0], ast.GtE) and isinstance(v.comparators[0], ast.Constant) and v.comparators[0].value == 1 for v in (t.values if isinstance(t, ast.BoolOp) else []))
+                       for t, pol in lits)
+        if not okle:
+            ck.bad(rule, f, "an integer value type is kept only for formats without fraction bits (otherwise reads would floor the value)",
+                   "value type left as %s although n_frac may be positive: guards %s" % (src(final)[:40], [(src(t)[:50], p_) for t, p_ in lits if "n_frac" in src(t)]), vst[-1].stmt,
+                   "get_val()/comparisons of an int-typed object with n_frac = 1.. return floor(value)")
+            return
+        n_ok += 1
+    ck.check(n_ok > 0, rule, f, "value-type fix-up: integer value types survive a value store only when n_frac <= 0 (%d paths)" % n_ok, "no value-type store found in set_val", f.node)
